@@ -33,6 +33,24 @@ def _b(t):
     return unhex(t)
 
 
+def vp_of_sx(x):
+    """the generator's representation (gen_cmd.py, section `value parsers`) of a `(vp ..)` / `(ext ..)` item"""
+    if isinstance(x, str):
+        return x
+    if x[0] == "i64":
+        return ("i64", int(x[1]), int(x[2]))
+    if x[0] == "int":
+        return ("int", x[1], int(x[2]), int(x[3]))
+    if x[0] == "pv":
+        out = []
+        for pv in x[1:]:
+            hide = bool(pv) and pv[0] == "hide"
+            names = [_b(n) for n in (pv[1:] if hide else pv)]
+            out.append((names[0], names[1:], hide))
+        return ("pv", out)
+    raise ValueError("vp %r" % (x,))
+
+
 def arg_of_sx(items):
     a = {"id": _b(items[0]), "flags": set(), "aliases": [], "saliases": [], "difs": [], "requires_if": [],
          "r_if": [], "r_if_all": []}
@@ -59,7 +77,7 @@ def arg_of_sx(items):
         elif h == "term":
             a["term"] = _b(l[0])
         elif h == "vp":
-            a["vp"] = l[0] if isinstance(l[0], str) else ("i64", int(l[0][1]), int(l[0][2]))
+            a["vp"] = vp_of_sx(l[0])
         elif h == "flags":
             a["flags"] = set(l)
         elif h == "default":
